@@ -297,8 +297,11 @@ pub fn run(out: &mut Out, seed: u64, thorough: bool, replay: Option<&str>) {
                     out.count("op:adv");
                 }
                 91..=92 => {
-                    let nid = rng.id20();
+                    // a fresh id, or (one time in three) the id of a node of the universe, which may
+                    // be in the table: the table must not end up holding its own id
+                    let nid = if rng.chance(1, 3) { unhex(&rng.pick(&uni).0) } else { rng.id20().to_vec() };
                     out.run(&mut s, format!("rekey {}", hex(&nid)));
+                    out.run(&mut s, "size".into());
                     out.count("op:rekey");
                 }
                 93..=96 => {
